@@ -65,6 +65,14 @@ Expected(s) ==
                          \cup (IF OpsDir(s) = "none" THEN {}
                                ELSE {Join(RootOf(s), OpsDir(s) \o "/q.d.graphql.ts"), Join(RootOf(s), OpsDir(s) \o "/q.d.graphql.ts.map")})]
 
+(* The documented shape of the `json` output (CLIOutput on the "CLI Usage" page): `error` exists when a command fails, `check` when  *)
+(* the check command was run (generate implies check), `generate` when the generate command was run.                               *)
+JsonKeys(s) ==
+  LET x == Expected(s) IN
+  (IF x.exit = 1 THEN {"error"} ELSE {})
+  \cup (IF x.why \in {"ok", "no-schema-output"} THEN {"check"} ELSE {})
+  \cup (IF x.why \in {"ok", "no-schema-output"} /\ s.commands = <<"generate">> THEN {"generate"} ELSE {})
+
 (* design-level sanity, checked by TLC over all scenarios (MC_CliConfig) *)
 SearchIsFirstMatch == \A s \in Scenarios : (s.explicit = "none" /\ s.present # {}) =>
                          \A k \in s.present : Chosen(s)[2] = SearchOrder[k] => \A j \in s.present : k <= j
